@@ -1,4 +1,4 @@
-import VelaVerif.Lemmas.Config
+import VelaVerif.Lemmas.ConfigRefine
 /-!
 # C18 — system configuration and memory mode resolve as documented
 
@@ -370,5 +370,45 @@ theorem rejects_out_of_range_size (maxAddr : Nat) (s : SysCfg) (m : MemCfg) (siz
 theorem rejects_malformed_value {α : Type} (v : String) (d : α) (p : String → Option α) (e : Err) (h : p v = none) :
     fieldOr (some v) d p e = .error e := by
   simp [fieldOr, h]
+
+/-! ## 5. The resolution as a whole follows the documented rules -/
+
+/-- **model_meets_documented_rules.**  For *every* input of `ArchitectureFeatures` (any parsed files, any
+    selection, any accelerator family and address width, any command-line size) the model's outcome is one
+    the rules of OPTIONS.md (`Spec.specArch`, written independently: nearest-definition lookup over the
+    chain, the documented defaults, the example-file sections for `internal-default`, the Sram-only
+    arrangement, CLI override, legality and range) allow: the same values when the rules accept, some error
+    when they reject.  (`imx93 = false`: the i.MX93 default system configuration of vela.py is not documented.) -/
+theorem model_meets_documented_rules (inp : Input) (h : inp.imx93 = false) :
+    specCheck (specArch inp.ini inp.isU65 inp.maxAddr inp.systemConfig inp.memoryMode inp.cli)
+      (getVelaConfig inp).toOption = true :=
+  specCheck_of_refines (getVelaConfig_refines inp h)
+
+/-- spelled out: accepted by the rules ⇒ the model returns exactly the documented parameters -/
+theorem documented_accept_is_exact (inp : Input) (h : inp.imx93 = false) (b : Arch)
+    (hs : specArch inp.ini inp.isU65 inp.maxAddr inp.systemConfig inp.memoryMode inp.cli = .accept b) :
+    getVelaConfig inp = .ok b := by
+  have := getVelaConfig_refines inp h
+  rw [hs] at this
+  obtain ⟨a, ha, hr⟩ := this
+  rw [ha, hr]
+
+/-- rejected by the rules ⇒ the model raises an error (never a silent default) -/
+theorem documented_reject_is_error (inp : Input) (h : inp.imx93 = false)
+    (hs : specArch inp.ini inp.isU65 inp.maxAddr inp.systemConfig inp.memoryMode inp.cli = .reject) :
+    ∃ e, getVelaConfig inp = .error e := by
+  have := getVelaConfig_refines inp h
+  rw [hs] at this
+  exact this
+
+/-- non-vacuity on the bundled example file: the documented `Dedicated_Sram_512KB` child overrides its
+    parent's 393216 bytes, the rest is inherited -/
+def exBundled : Input :=
+  { ini := some Gen.Cfg.bundledArmIni, isU65 := true, maxAddr := 2 ^ 40,
+    systemConfig := "Ethos_U65_High_End", memoryMode := "Dedicated_Sram_512KB", cli := none }
+
+example : (getVelaConfig exBundled).toOption.map
+      (fun a => (a.arenaCacheSize, a.constPort, a.arenaPort, a.cachePort)) = some (524288, .axi1, .axi1, .axi0) := by
+  decide
 
 end VelaVerif.Props.C18
